@@ -86,6 +86,21 @@ Example C17_example_history :
   /\ mono 0 ex_ops /\ cache_wf ex_init.
 Proof. split; [vm_compute; reflexivity|]. split; [vm_compute; repeat split; discriminate|constructor]. Qed.
 
+(* the hypotheses of the two "forwarded again" theorems hold for this history: forward at 0, purge tick at 14 min, request at 15 min *)
+Example C17_liveness_hypotheses_satisfiable :
+  let tr := run ex_init ex_ops in
+  let d := (ex_init, Tick 0, Purged) in
+  let mid := firstn 5 (skipn 1 tr) in
+  tr = [] ++ (fst (fst (nth 0 tr d)), Req ex_req 0, Forward 1) :: mid ++ (fst (fst (nth 6 tr d)), Req ex_req (ex_min 15), snd (nth 6 tr d)) :: skipn 7 tr
+  /\ nofwd (key_of ex_req) mid
+  /\ (exists s tau, In (s, Tick tau, Purged) mid /\ reobs_window < tau - 0)
+  /\ snd (nth 6 tr d) = Forward 1.
+Proof.
+  cbv zeta. split; [vm_compute; reflexivity|]. split; [|split; [|vm_compute; reflexivity]].
+  - intros s r t c Hin. vm_compute in Hin. repeat (destruct Hin as [Hin|Hin]; [discriminate Hin|]). destruct Hin.
+  - exists (fst (fst (nth 5 (run ex_init ex_ops) (ex_init, Tick 0, Purged)))), (ex_min 14). split; [vm_compute; do 4 right; left; reflexivity|vm_compute; reflexivity].
+Qed.
+
 Print Assumptions C17_forward_only_to_named_chain.
 Print Assumptions C17_forwards_more_than_window_apart.
 Print Assumptions C17_forwarded_again_after_purge.
